@@ -71,6 +71,7 @@ func (e *Exec) deepCopyObj(o *Object, memo copyMemo) *Object {
 	memo[o] = n
 	n.v = e.deepCopy(o.v, memo)
 	n.snapshot, n.snapType, n.snapOff, n.snapLen = o.snapshot, o.snapType, o.snapOff, o.snapLen
+	n.snapAbsent = o.snapAbsent
 	return n
 }
 
@@ -159,7 +160,7 @@ func (e *Exec) mkSyntaxError(off *Term) Value {
 // is empty was not in the dictionary (the encoder that produced the snapshot left it out) and keeps
 // whatever the target held before. Targets are fresh zero values everywhere in the unchanged code, so
 // this only matters for code that reuses a decoded-into struct. Nested structs are replaced whole.
-func (e *Exec) decodeInto(old, nu Value, t types.Type) Value {
+func (e *Exec) decodeInto(old, nu Value, t types.Type, absent []string) Value {
 	st, ok := t.Underlying().(*types.Struct)
 	oa, ok1 := old.(*Agg)
 	na, ok2 := nu.(*Agg)
@@ -168,6 +169,17 @@ func (e *Exec) decodeInto(old, nu Value, t types.Type) Value {
 	}
 	for i := 0; i < st.NumFields(); i++ {
 		tag := reflect.StructTag(st.Tag(i)).Get("bencode")
+		isAbsent := false
+		for _, k := range absent {
+			if k != "" && k == strings.Split(tag, ",")[0] {
+				isAbsent = true
+			}
+		}
+		if isAbsent {
+			// the datagram leaves this key out: the decoder does not touch the field
+			na.elems[i] = oa.elems[i]
+			continue
+		}
 		if !strings.Contains(tag, ",omitempty") {
 			continue
 		}
@@ -255,7 +267,7 @@ func (e *Exec) bencodeUnmarshal(data Slice, target Value) Value {
 		}
 		switch {
 		case types.Identical(pt.Elem(), obj.snapType):
-			e.store(dst, e.decodeInto(e.load(dst), e.deepCopy(obj.snapshot, copyMemo{}), obj.snapType))
+			e.store(dst, e.decodeInto(e.load(dst), e.deepCopy(obj.snapshot, copyMemo{}), obj.snapType, obj.snapAbsent))
 		case types.IsInterface(pt.Elem()) && pt.Elem().Underlying().(*types.Interface).NumMethods() == 0:
 			e.store(dst, Iface{t: obj.snapType, v: e.deepCopy(obj.snapshot, copyMemo{})})
 		default:
@@ -331,6 +343,18 @@ func init() {
 		}
 		n := int(e.concreteInt(a[1].(*Term), "verifEncode length"))
 		return e.encodeSnapshot(it.t, it.v, n)
+	}
+	// verifEncodeWithout(v any, n int, keys string) []byte : the n-byte datagram that decodes to v except
+	// that the comma-separated top-level dictionary keys are left out of it
+	h["verifEncodeWithout"] = func(e *Exec, c *frame, fn *ssa.Function, a []Value) Value {
+		it := a[0].(Iface)
+		if it.t == nil {
+			panic(e.unsupported("verifEncodeWithout(nil)"))
+		}
+		n := int(e.concreteInt(a[1].(*Term), "verifEncodeWithout length"))
+		s := e.encodeSnapshot(it.t, it.v, n)
+		s.obj.snapAbsent = strings.Split(strArg(e, a[2]), ",")
+		return s
 	}
 	// verifDecode<T>(b []byte) (T, bool): the value a buffer produced by bencode.Marshal stands for
 	h["verifDecodeAny"] = func(e *Exec, c *frame, fn *ssa.Function, a []Value) Value {
